@@ -45,7 +45,7 @@ def std_run(engine, job, obligations_fn, marker, prop, scen, files=None, opt='O1
             res['inconclusive'].append('%s %s: %s' % (scen, job.get('cfg'), r.info)); continue
         if r.kind != 'return' or (marker and marker not in r.st.reached):
             msg = '%s cfg=%s choices=%s: path ended with %s' % (scen, job.get('cfg'), [v for _, v in r.st.choices] if r.st else '', describe_end(r))
-            if fatal_as == 'violation':
+            if fatal_as == 'violation' and r.kind not in ('budget', 'unsupported', 'inconclusive'):
                 m = eng.sc.check(r.st.pc)
                 add_violation(res, '%s/%s/%s' % (prop, scen, end_locus(r)), msg, replay_of(eng, r.st, m, job, files), 'memory')
             else:
